@@ -19,13 +19,16 @@ ID = 'C09'
 LEVEL = 'exploration'
 RULE = ('exhaustive: every chain of 1..N conditions (N=4 quick, 5 thorough) x each condition in '
         '{probe callable, plain value, logging-mapping value, probe() expression} x {true,false} or '
-        'undefined name x with/without else; values, attribute spelling, tag syntax, enclosing tag and '
-        'the body re-references (11 insertion forms nested in 0..3 of 7 wrapper tags) are drawn from '
-        'ctx.rng per case; seeded: chains with functions, bound methods, sub-templates, _[name] '
-        'expressions and repeated names; unless (with its if twin) and call over every kind x every '
-        'value x every enclosing tag. distinct = distinct full case descriptions; non-trivial = at least '
-        'one condition whose evaluation is observable (event or undefined name) or a rendered body '
-        're-reference')
+        'undefined name x with/without else; values, attribute spelling, tag syntax, enclosing tag '
+        '(none, in, the conditional written twice, with, let, if, try) and the body re-references '
+        '(11 insertion forms nested in 0..3 of 7 wrapper tags) are drawn from ctx.rng per case; '
+        'exhaustive body shapes: every form x every wrapper stack of depth 0..2 (quick) / 0..3 '
+        '(thorough) x every kind of defined named condition x true/false; seeded: length-5 chains '
+        '(quick), chains with functions, bound methods, sub-templates, _[name] expressions, repeated '
+        'names and later conditions armed to raise; unless (with its if twin) and call over every kind '
+        'x every value x every enclosing tag. distinct = distinct full case descriptions; non-trivial '
+        '= at least one condition whose evaluation is observable (event or undefined name) or a '
+        'rendered body re-reference')
 ASSUMPTIONS = [
     'body references are generated only to names the conditional has evaluated and found defined at or '
     'before the branch (that is what the statement speaks about); undefined names are never referenced',
@@ -35,6 +38,8 @@ ASSUMPTIONS = [
     'a named condition occurring twice in one chain is expected to be evaluated once ("at most once per '
     'conditional") and to have the same truth both times',
     'dtml-call of an undefined name: only "emits nothing" is demanded when it returns; raising is not judged',
+    'every rendering of a conditional (each dtml-in iteration, each of two copies side by side) is a new '
+    'conditional: a reached named condition is evaluated again, nothing is carried over',
 ]
 SHARD_TIMEOUT = {'quick': 600, 'thorough': 3000}
 NSHARDS = {'quick': 16, 'thorough': 32}
@@ -42,6 +47,7 @@ MAXN = {'quick': 4, 'thorough': 5}
 SEEDED_N5 = {'quick': 8000, 'thorough': 0}          # quick samples the length-5 chains
 SEEDED_EXT = {'quick': 12000, 'thorough': 120000}
 UNLESS_SHAPES = {'quick': 6, 'thorough': 40}
+SHAPE_DEPTH = {'quick': 2, 'thorough': 3}
 
 # the options of one condition in the exhaustive family
 OPTS = [('nc', True), ('nc', False), ('np', True), ('np', False), ('nm', True), ('nm', False),
@@ -363,6 +369,27 @@ def run(ctx, spec):
                     case = {'fam': 'call', 'style': style, 'outer': outer, 'conds': [c],
                             'bodies': [[]], 'else': None}
                     run_case(ctx, case)
+
+    # 5. exhaustive body shapes: every insertion form x every wrapper stack up to the depth bound x
+    #    every kind of defined named condition x true/false (one condition, with else: either way a
+    #    body that re-references the name is rendered)
+    idx = 0
+    for depth in range(SHAPE_DEPTH[tier] + 1):
+        for stack in itertools.product(U.WRAPPERS, repeat=depth):
+            for form in U.FORMS:
+                for kind in U.NAMED_DEFINED:
+                    for truth in (True, False):
+                        mine = idx % ctx.nshards == ctx.shard
+                        idx += 1
+                        if not mine:
+                            continue
+                        c = make_cond(rng, kind, truth, 'c1')
+                        ref = ['c1', form, list(stack)]
+                        case = {'fam': 'chain', 'style': rng.choice(('dtml', 'sgml')),
+                                'outer': rng.choice(U.OUTERS), 'conds': [c],
+                                'bodies': [[ref]], 'else': [ref]}
+                        run_case(ctx, case)
+                        ctx.count('chain:exhaustive body-shape cases')
     reach.stop()
     reach.report(ctx)
 
@@ -409,10 +436,19 @@ def finish(agg):
     if c.get('chain:exhaustive cases', 0) != total:
         inc.append('exhaustive chain enumeration incomplete: %s of %d'
                    % (c.get('chain:exhaustive cases'), total))
+    shapes = sum(len(U.WRAPPERS) ** d for d in range(SHAPE_DEPTH[agg['tier']] + 1))
+    shapes *= len(U.FORMS) * len(U.NAMED_DEFINED) * 2
+    if c.get('chain:exhaustive body-shape cases', 0) != shapes:
+        inc.append('exhaustive body-shape enumeration incomplete: %s of %d'
+                   % (c.get('chain:exhaustive body-shape cases'), shapes))
     return {'inconclusive': inc,
             'coverage': {'exhaustive': True,
                          'exhaustive_part': 'chains of 1..%d conditions x %d options per condition x '
-                                            'with/without else = %d cases' % (n, len(OPTS), total),
+                                            'with/without else = %d cases; body shapes: %d forms x all '
+                                            'wrapper stacks of depth 0..%d x %d named kinds x true/false '
+                                            '= %d cases'
+                                            % (n, len(OPTS), total, len(U.FORMS),
+                                               SHAPE_DEPTH[agg['tier']], len(U.NAMED_DEFINED), shapes),
                          'explanation': 'values, spelling, enclosing tag and body references of the '
                                         'exhaustive chains are seeded; seeded families are extra'}}
 
